@@ -296,7 +296,9 @@ class DirectCollocation(SamplingMethod):
             else:
                 # Row vector if vector
                 if value.is_column() and var.is_scalar(): value = value.T
-                for k in list(range(self.N))+[-1]:
+                # k=-1 (final node) first: for per-interval quantities it aliases the last interval,
+                # whose own value (at its start time) must win
+                for k in [-1]+list(range(self.N)):
                     target = self.eval_at_control(stage, var, k)
                     value_k = value
                     if target.numel()*(self.N)==value.numel() or target.numel()*(self.N+1)==value.numel():
